@@ -501,6 +501,76 @@ def v9(rep):
     rep.floor("tail masks of the last bit-vector word", n, 1)
 
 
+V10_UNITS = ("table.c", "btree.c", "priq.c", "bitv.c", "intset.c", "dnf.c")
+
+
+def v10(rep):
+    """The operations of these modules are functions of their operands: the answer of tblElt, btreeSearch, bitvEqual or
+    dnfImplies depends on the objects it is given and on nothing it did before.  Today no function of the six units writes a
+    file-scope or function-static variable.  A remembered answer keyed by the *address* of an operand (`if (x == lastX) return
+    lastResult;`) is wrong as soon as an operand is freed and its storage handed out again (dnfFree, tblFree, ...): the next
+    object at that address gets the dead object's answer.  Rule: a function of these units that writes unit-level state and
+    compares a parameter with such state by ==/!= is a violation; any other write of unit-level state is refused (a cache that
+    is validated by content may be right -- that cannot be told from the shape)."""
+    n = 0
+    for unit in V10_UNITS:
+        f = common.extract(unit, all_trees=True)
+        for name, fn in sorted(f.funcs.items()):
+            if "body" not in fn or not fn.get("file", "").endswith(unit):
+                continue
+            n += 1
+            params = set(p["n"] for p in fn.get("params", []))
+            locs, stat = set(params), set()
+            for x in walk(fn["body"]):
+                if x["k"] == "DeclStmt":
+                    for d in x.get("decls", []):
+                        if d.get("static"):
+                            stat.add(d["n"])
+                        else:
+                            locs.add(d["n"])
+
+            def state(e):
+                e = strip(e)
+                while e is not None and e["k"] in ("MemberExpr", "ArraySubscriptExpr") and not e.get("arrow"):
+                    e = strip(e["c"][0])
+                if e is not None and e["k"] == "DeclRefExpr" and e.get("dk") not in ("parm", "enum", "func") and \
+                        (e["n"] in stat or e["n"] not in locs):
+                    return e["n"]
+                return None
+            written = {}
+            for x in walk(fn["body"]):
+                tgt = None
+                if x["k"] in ("BinaryOperator", "CompoundAssignOperator") and x["op"].endswith("=") and x["op"] not in ("==", "!=", "<=", ">="):
+                    tgt = x["c"][0]
+                elif x["k"] == "UnaryOperator" and x["op"] in ("++", "--", "post++", "post--"):
+                    tgt = x["c"][0]
+                if tgt is not None and state(tgt) is not None:
+                    written.setdefault(state(tgt), x["l"])
+            if not written:
+                continue
+            keyed = None
+            for x in walk(fn["body"]):
+                if x["k"] == "BinaryOperator" and x["op"] in ("==", "!="):
+                    a, b = strip(x["c"][0]), strip(x["c"][1])
+                    for p_, s_ in ((a, b), (b, a)):
+                        if p_ is not None and p_["k"] == "DeclRefExpr" and p_["n"] in params and "*" in (p_.get("t") or "") + ("*" if p_.get("tc") == "ptr" else "") \
+                                and s_ is not None and state(s_) in written:
+                            keyed = (p_["n"], state(s_), x["l"])
+            key = "operation-has-no-memory:%s:%s" % (unit, name)
+            if keyed:
+                rep.violation("V10", key, "%s:%d (%s)" % (unit, keyed[2], name),
+                              "%s remembers an answer in `%s` and recognises the question by the address of its operand `%s`: when that "
+                              "object is freed and the store hands the same block to a new object, the new object gets the old "
+                              "answer -- the result depends on the history of allocations, not on the operands"
+                              % (name, keyed[1], keyed[0]))
+            else:
+                raise AnalysisBroken("%s (%s) writes unit-level state %s: whether its result still depends on its operands only cannot "
+                                     "be told from the shape of the code" % (name, unit, sorted(written)))
+    rep.floor("functions of the container units scanned for unit-level state", n, 120)
+    if not any(v for v in rep.violations if "operation-has-no-memory" in str(v)):
+        rep.ok("V10", "operation-has-no-memory:none", sample={"functions": n})
+
+
 def run(tier, only=None):
     rep = common.Report("C20", tier, EXPLANATION)
     v1(rep)
@@ -511,6 +581,7 @@ def run(tier, only=None):
     v7(rep)
     v8(rep)
     v9(rep)
+    v10(rep)
     try:
         v5(rep)
     except AnalysisBroken as e:
